@@ -13,29 +13,31 @@ variable {K : Type} [Field K]
 
 /-! ### a fold of *blocks* of writes -/
 
-/-- like `phase_generic`, but step `k` rewrites the whole block of slots `slot k j`, `Q k j` -/
-theorem phase_blocks_aux {β : Type} (a len : Nat) (f : Nat → Option β)
-    (step : Array K → β → Array K) (M0 : Array K) (slot : Nat → Nat → Nat) (Q : Nat → Nat → Prop)
-    (newv : Nat → Nat → K)
+omit [Field K] in
+/-- like `phase_generic`, but step `k` rewrites the whole block of locations `slot k j`, `Q k j`,
+    of an abstract state read through `get` (one array, or a pair of arrays) -/
+theorem phase_blocks_gen {σ ι β : Type} (get : σ → ι → K) (ok : σ → Prop) (a len : Nat)
+    (f : Nat → Option β) (step : σ → β → σ) (S0 : σ) (hok : ok S0)
+    (slot : Nat → Nat → ι) (Q : Nat → Nat → Prop) (newv : Nat → Nat → K)
     (hdisj : ∀ k k' j j', a ≤ k → k < a + len → a ≤ k' → k' < a + len → Q k j → Q k' j' →
       slot k j = slot k' j' → k = k')
-    (hstep : ∀ M k e, a ≤ k → k < a + len → f k = some e → M.size = M0.size →
-      (∀ x, (∀ k' j', a ≤ k' → k' < a + len → Q k' j' → x ≠ slot k' j') → rd M x = rd M0 x) →
-      (∀ j, Q k j → rd M (slot k j) = rd M0 (slot k j)) →
-      (step M e).size = M.size ∧ (∀ j, Q k j → rd (step M e) (slot k j) = newv k j) ∧
-      (∀ x, (∀ j, Q k j → x ≠ slot k j) → rd (step M e) x = rd M x))
+    (hstep : ∀ S k e, a ≤ k → k < a + len → f k = some e → ok S →
+      (∀ x, (∀ k' j', a ≤ k' → k' < a + len → Q k' j' → x ≠ slot k' j') → get S x = get S0 x) →
+      (∀ j, Q k j → get S (slot k j) = get S0 (slot k j)) →
+      ok (step S e) ∧ (∀ j, Q k j → get (step S e) (slot k j) = newv k j) ∧
+      (∀ x, (∀ j, Q k j → x ≠ slot k j) → get (step S e) x = get S x))
     (m : Nat) (hm : m ≤ len) :
-    (((List.range' a m).filterMap f).foldl step M0).size = M0.size ∧
+    ok (((List.range' a m).filterMap f).foldl step S0) ∧
     (∀ x, (∀ k j, a ≤ k → k < a + m → Q k j → x ≠ slot k j) →
-      rd (((List.range' a m).filterMap f).foldl step M0) x = rd M0 x) ∧
+      get (((List.range' a m).filterMap f).foldl step S0) x = get S0 x) ∧
     (∀ k e j, a ≤ k → k < a + m → f k = some e → Q k j →
-      rd (((List.range' a m).filterMap f).foldl step M0) (slot k j) = newv k j) := by
+      get (((List.range' a m).filterMap f).foldl step S0) (slot k j) = newv k j) := by
   induction m with
-  | zero => exact ⟨rfl, fun _ _ => rfl, by intro k e j h1 h2; omega⟩
+  | zero => exact ⟨hok, fun _ _ => rfl, by intro k e j h1 h2; omega⟩
   | succ m ih =>
     obtain ⟨g1, g2, g3⟩ := ih (by omega)
     rw [List.range'_concat, List.filterMap_append, List.foldl_append, Nat.one_mul]
-    generalize ((List.range' a m).filterMap f).foldl step M0 = M at g1 g2 g3
+    generalize ((List.range' a m).filterMap f).foldl step S0 = M at g1 g2 g3
     cases hfk : f (a + m) with
     | none =>
       simp only [List.filterMap_cons, hfk, List.filterMap_nil, List.foldl_nil]
@@ -52,7 +54,7 @@ theorem phase_blocks_aux {β : Type} (a len : Nat) (f : Nat → Option β)
         (fun j hq => g2 _ (fun k j' h1 h2 hq' heq => by
           have := hdisj _ _ _ _ (by omega) (by omega) h1 (by omega) hq hq' heq
           omega))
-      refine ⟨by rw [s1, g1], ?_, ?_⟩
+      refine ⟨s1, ?_, ?_⟩
       · intro x hx
         rw [s3 x (fun j hq => hx (a + m) j (by omega) (by omega) hq)]
         exact g2 x (fun k j h1 h2 hq => hx k j h1 (by omega) hq)
@@ -64,6 +66,28 @@ theorem phase_blocks_aux {β : Type} (a len : Nat) (f : Nat → Option β)
             have := hdisj _ _ _ _ h1 (by omega) (by omega) (by omega) hq hq' heq
             omega)]
           exact g3 k e' j h1 (by omega) he' hq
+
+/-- single-array instance -/
+theorem phase_blocks_aux {β : Type} (a len : Nat) (f : Nat → Option β)
+    (step : Array K → β → Array K) (M0 : Array K) (slot : Nat → Nat → Nat) (Q : Nat → Nat → Prop)
+    (newv : Nat → Nat → K)
+    (hdisj : ∀ k k' j j', a ≤ k → k < a + len → a ≤ k' → k' < a + len → Q k j → Q k' j' →
+      slot k j = slot k' j' → k = k')
+    (hstep : ∀ M k e, a ≤ k → k < a + len → f k = some e → M.size = M0.size →
+      (∀ x, (∀ k' j', a ≤ k' → k' < a + len → Q k' j' → x ≠ slot k' j') → rd M x = rd M0 x) →
+      (∀ j, Q k j → rd M (slot k j) = rd M0 (slot k j)) →
+      (step M e).size = M.size ∧ (∀ j, Q k j → rd (step M e) (slot k j) = newv k j) ∧
+      (∀ x, (∀ j, Q k j → x ≠ slot k j) → rd (step M e) x = rd M x))
+    (m : Nat) (hm : m ≤ len) :
+    (((List.range' a m).filterMap f).foldl step M0).size = M0.size ∧
+    (∀ x, (∀ k j, a ≤ k → k < a + m → Q k j → x ≠ slot k j) →
+      rd (((List.range' a m).filterMap f).foldl step M0) x = rd M0 x) ∧
+    (∀ k e j, a ≤ k → k < a + m → f k = some e → Q k j →
+      rd (((List.range' a m).filterMap f).foldl step M0) (slot k j) = newv k j) :=
+  phase_blocks_gen (fun M x => rd M x) (fun M => M.size = M0.size) a len f step M0 rfl slot Q newv
+    hdisj (fun M k e h1 h2 he hM hx hown => by
+      obtain ⟨s1, s2, s3⟩ := hstep M k e h1 h2 he hM hx hown
+      exact ⟨by rw [s1, hM], s2, s3⟩) m hm
 
 /-! ### Schur complements of the dense factors -/
 
@@ -122,7 +146,7 @@ section mip
 variable {n : Nat} {P : Pattern}
 
 /-- phase 1 of stage `i`: scale the present sub-diagonal entries of column `i` by `inv` -/
-theorem miPhase1 (h : IPSetup n P) (M : Array K) (inv : K) (i : Nat) (hi : i < n)
+theorem miPhase1 (g : GoodPattern n P) (M : Array K) (inv : K) (i : Nat) (hi : i < n)
     (hMs : M.size = P.nnz) :
     (((rangeFrom (i + 1) n).filterMap (miAji P i)).foldl
         (fun M t => wr M t (rd M t * inv)) M).size = P.nnz ∧
@@ -142,8 +166,8 @@ theorem miPhase1 (h : IPSetup n P) (M : Array K) (inv : K) (i : Nat) (hi : i < n
     (fun j => P.zero? j i = false)
     (fun j t h1 h2 ht => (hsome j t ht).1)
     (fun j j' h1 h2 h1' h2' hp hp' heq =>
-      (h.g.rk_inj j i j' i (by omega) hi (by omega) hi hp hp' heq).1)
-    (fun j h1 h2 hp => by rw [hMs]; exact h.g.rk_lt j i (by omega) hi hp)
+      (g.rk_inj j i j' i (by omega) hi (by omega) hi hp hp' heq).1)
+    (fun j h1 h2 hp => by rw [hMs]; exact g.rk_lt j i (by omega) hi hp)
     (by
       intro M' j t h1 h2 ht hMs' hM hown
       obtain ⟨_, rfl⟩ := hsome j t ht
@@ -157,7 +181,7 @@ theorem miPhase1 (h : IPSetup n P) (M : Array K) (inv : K) (i : Nat) (hi : i < n
   · intro r c hr hc hp hnot
     apply g2
     intro j h1 h2 hpj heq
-    have := h.g.rk_inj r c j i hr hc (by omega) hi hp hpj heq
+    have := g.rk_inj r c j i hr hc (by omega) hi hp hpj heq
     omega
 
 /-- inner loop of phase 2 for a fixed column `k > i`: `M(j,k) -= M(j,i)·aik` for every present
@@ -303,7 +327,7 @@ theorem miStep_inv (h : IPSetup n P) (Am : Nat → Nat → K)
     MozInv n P Am (DenseLU.lu Am n) (i + 1) (miStep M (miRow P n i)) := by
   obtain ⟨offU, offL⟩ := ip_dense_off h Am hA
   simp only [miStep, miRow]
-  obtain ⟨p1, p2, p3⟩ := miPhase1 h M (1 / rd M (P.rk i i)) i hi hMs
+  obtain ⟨p1, p2, p3⟩ := miPhase1 h.g M (1 / rd M (P.rk i i)) i hi hMs
   generalize ((rangeFrom (i + 1) n).filterMap (miAji P i)).foldl
     (fun M' t => wr M' t (rd M' t * (1 / rd M (P.rk i i)))) M = M1 at p1 p2 p3
   obtain ⟨q1, q2, q3⟩ := miPhase2 h M1 i hi p1
@@ -389,5 +413,727 @@ theorem mozartInPlaceCell_view (h : IPSetup n P) (hn : P.n = n) (m0 : Array K)
     · next hcr => exact (offU r c hr hc hp (by omega)).symm
 
 end mipRows
+
+/-! ### Mozart with separate `L`, `U`: initialisation -/
+
+/-- a list of constant writes -/
+def applyWrites (ws : List (Nat × K)) (M : Array K) : Array K :=
+  ws.foldl (fun M w => wr M w.1 w.2) M
+
+theorem applyWrites_spec (ws : List (Nat × K)) (M : Array K) :
+    (applyWrites ws M).size = M.size ∧
+    (∀ x, (∀ w ∈ ws, w.1 ≠ x) → rd (applyWrites ws M) x = rd M x) ∧
+    (∀ x v, x < M.size → (∃ w ∈ ws, w.1 = x) → (∀ w ∈ ws, w.1 = x → w.2 = v) →
+      rd (applyWrites ws M) x = v) := by
+  induction ws generalizing M with
+  | nil => exact ⟨rfl, fun _ _ => rfl, by intro x v _ ⟨w, hw, _⟩; cases hw⟩
+  | cons w ws ih =>
+    obtain ⟨g1, g2, g3⟩ := ih (wr M w.1 w.2)
+    have e : applyWrites (w :: ws) M = applyWrites ws (wr M w.1 w.2) := rfl
+    rw [e]
+    refine ⟨by rw [g1, wr_size], ?_, ?_⟩
+    · intro x hx
+      rw [g2 x (fun w' hw' => hx w' (List.mem_cons_of_mem _ hw')),
+        rd_wr_ne _ _ _ _ (hx w List.mem_cons_self)]
+    · intro x v hlt hex hall
+      by_cases hlater : ∃ w' ∈ ws, w'.1 = x
+      · exact g3 x v (by rw [wr_size]; exact hlt) hlater
+          (fun w' hw' => hall w' (List.mem_cons_of_mem _ hw'))
+      · have hnot : ∀ w' ∈ ws, w'.1 ≠ x := fun w' hw' heq => hlater ⟨w', hw', heq⟩
+        obtain ⟨w0, hw0, hx0⟩ := hex
+        rcases List.mem_cons.mp hw0 with h | h
+        · subst h
+          rw [g2 x hnot, ← hx0, rd_wr_same _ _ _ (by rw [hx0]; exact hlt)]
+          exact hall w0 List.mem_cons_self hx0
+        · exact absurd hx0 (hnot w0 h)
+
+theorem foldl_pair {α β γ : Type} (fL : α → γ → α) (fU : β → γ → β) (l : List γ) (L : α) (U : β) :
+    l.foldl (fun (LU : α × β) r => (fL LU.1 r, fU LU.2 r)) (L, U) = (l.foldl fL L, l.foldl fU U) := by
+  induction l generalizing L U with
+  | nil => rfl
+  | cons r l ih => simp only [List.foldl_cons, ih]
+
+def mzInit (A Lp Up : Pattern) (n i : Nat) : MInit :=
+  { lii := Lp.rk i i
+    ujiAji := (List.range (i + 1)).filterMap fun j =>
+      if A.zero? j i then none else some (Up.rk j i, A.rk j i)
+    fillU := (List.range (i + 1)).filterMap fun j =>
+      if A.zero? j i && !Up.zero? j i then some (Up.rk j i) else none
+    ljiAji := (rangeFrom (i + 1) n).filterMap fun j =>
+      if A.zero? j i then none else some (Lp.rk j i, A.rk j i)
+    fillL := (rangeFrom (i + 1) n).filterMap fun j =>
+      if A.zero? j i && !Lp.zero? j i then some (Lp.rk j i) else none }
+
+theorem mozartInit_eq (A Lp Up : Pattern) :
+    mozartInit A Lp Up = (List.range A.n).map (mzInit A Lp Up A.n) := rfl
+
+/-- the writes performed on `U` by the initialisation part of `mozartCell` -/
+def mzWritesU (a : Array K) (ini : List MInit) : List (Nat × K) :=
+  (ini.flatMap fun r => r.ujiAji.map fun p => (p.1, rd a p.2)) ++
+  (ini.flatMap fun r => r.fillU.map fun t => (t, (0 : K)))
+
+/-- the writes performed on `L` by the initialisation part of `mozartCell` -/
+def mzWritesL (a : Array K) (ini : List MInit) : List (Nat × K) :=
+  (ini.flatMap fun r => (r.lii, (1 : K)) :: r.ljiAji.map fun p => (p.1, rd a p.2)) ++
+  (ini.flatMap fun r => r.fillL.map fun t => (t, (0 : K)))
+
+/-- main loop step of `mozartCell` -/
+def mzStepK (LU : Array K × Array K) (k : MK) : Array K × Array K :=
+  let U := k.ujk.foldl (fun U p => wr U p.1 (rd U p.1 - rd LU.1 p.2 * rd U k.uik)) LU.2
+  let L := k.ljk.foldl (fun L p => wr L p.1 (rd L p.1 - rd L p.2 * rd U k.uik)) LU.1
+  (L, U)
+
+def mzStep (LU : Array K × Array K) (r : MRow) : Array K × Array K :=
+  let inv : K := 1 / rd LU.2 r.uii
+  let L := r.lji.foldl (fun L i => wr L i (rd L i * inv)) LU.1
+  r.ks.foldl mzStepK (L, LU.2)
+
+theorem mozartCell_eq (ini : List MInit) (rows : List MRow) (a : Array K) (l0 u0 : Array K) :
+    mozartCell ini rows a (l0, u0)
+      = rows.foldl mzStep (applyWrites (mzWritesL a ini) l0, applyWrites (mzWritesU a ini) u0) := by
+  have h1 : ini.foldl (fun (LU : Array K × Array K) r =>
+      let U := r.ujiAji.foldl (fun U p => wr U p.1 (rd a p.2)) LU.2
+      let L := wr LU.1 r.lii 1
+      let L := r.ljiAji.foldl (fun L p => wr L p.1 (rd a p.2)) L
+      (L, U)) (l0, u0)
+      = (ini.foldl (fun L r => r.ljiAji.foldl (fun L p => wr L p.1 (rd a p.2)) (wr L r.lii 1)) l0,
+         ini.foldl (fun U r => r.ujiAji.foldl (fun U p => wr U p.1 (rd a p.2)) U) u0) :=
+    foldl_pair (fun (L : Array K) (r : MInit) =>
+        r.ljiAji.foldl (fun L p => wr L p.1 (rd a p.2)) (wr L r.lii 1))
+      (fun (U : Array K) (r : MInit) => r.ujiAji.foldl (fun U p => wr U p.1 (rd a p.2)) U) ini l0 u0
+  unfold mozartCell
+  simp only [h1, applyWrites, mzWritesL, mzWritesU, List.foldl_append, List.foldl_flatMap,
+    List.foldl_map, List.foldl_cons]
+  rfl
+
+/-- hypotheses for the Mozart variant: as `LUSetup` without minimality (Mozart zero-fills every
+    fill-in slot, so patterns larger than the fill closure are fine) -/
+structure MozSetup (n : Nat) (A Lp Up : Pattern) : Prop where
+  gL : GoodPattern n Lp
+  gU : GoodPattern n Up
+  closed : Closed n (pres A) (pres Lp) (pres Up)
+  diagL : ∀ i, i < n → Lp.zero? i i = false
+  lowL : ∀ r c, r < n → c < n → Lp.zero? r c = false → c ≤ r
+  uppU : ∀ r c, r < n → c < n → Up.zero? r c = false → r ≤ c
+
+theorem LUSetup.toMoz {n : Nat} {A Lp Up : Pattern} (h : LUSetup n A Lp Up) :
+    MozSetup n A Lp Up :=
+  ⟨h.gL, h.gU, h.closed, h.diagL, h.lowL, h.uppU⟩
+
+section mzinit
+variable {n : Nat} {A Lp Up : Pattern}
+
+theorem mem_mzWritesU (h : MozSetup n A Lp Up) (a : Array K) (w : Nat × K)
+    (hw : w ∈ mzWritesU a ((List.range n).map (mzInit A Lp Up n))) :
+    ∃ r c, c < n ∧ r ≤ c ∧ Up.zero? r c = false ∧ w = (Up.rk r c, view A a r c) := by
+  unfold mzWritesU at hw
+  rw [List.mem_append] at hw
+  rcases hw with hw | hw
+  · rw [List.mem_flatMap] at hw
+    obtain ⟨ri, hri, hw⟩ := hw
+    rw [List.mem_map] at hri hw
+    obtain ⟨i, hi, rfl⟩ := hri
+    obtain ⟨p, hp, rfl⟩ := hw
+    have hi' := List.mem_range.mp hi
+    obtain ⟨j, hj, hg⟩ := mem_filterMap_range _ _ _ hp
+    cases hz : A.zero? j i <;> simp [hz] at hg
+    subst hg
+    refine ⟨j, i, hi', by omega, ?_, ?_⟩
+    · exact (pres_true _ _ _).mp (h.closed.supU j i (by omega) hi' ((pres_true _ _ _).mpr hz))
+    · simp [view, hz]
+  · rw [List.mem_flatMap] at hw
+    obtain ⟨ri, hri, hw⟩ := hw
+    rw [List.mem_map] at hri hw
+    obtain ⟨i, hi, rfl⟩ := hri
+    obtain ⟨t, ht, rfl⟩ := hw
+    have hi' := List.mem_range.mp hi
+    obtain ⟨j, hj, hg⟩ := mem_filterMap_range _ _ _ ht
+    cases hz : A.zero? j i <;> cases hu : Up.zero? j i <;> simp [hz, hu] at hg
+    subst hg
+    exact ⟨j, i, hi', by omega, hu, by simp [view, hz]⟩
+
+theorem mzWritesU_mem (a : Array K) (r c : Nat) (hc : c < n) (hrc : r ≤ c)
+    (hp : Up.zero? r c = false) :
+    ∃ w ∈ mzWritesU a ((List.range n).map (mzInit A Lp Up n)), w.1 = Up.rk r c := by
+  unfold mzWritesU
+  cases hz : A.zero? r c
+  · refine ⟨(Up.rk r c, rd a (A.rk r c)), ?_, rfl⟩
+    rw [List.mem_append]; left
+    rw [List.mem_flatMap]
+    refine ⟨mzInit A Lp Up n c, List.mem_map.mpr ⟨c, List.mem_range.mpr hc, rfl⟩, ?_⟩
+    rw [List.mem_map]
+    refine ⟨(Up.rk r c, A.rk r c), ?_, rfl⟩
+    show _ ∈ (List.range (c + 1)).filterMap _
+    rw [List.mem_filterMap]
+    exact ⟨r, List.mem_range.mpr (by omega), by simp [hz]⟩
+  · refine ⟨(Up.rk r c, 0), ?_, rfl⟩
+    rw [List.mem_append]; right
+    rw [List.mem_flatMap]
+    refine ⟨mzInit A Lp Up n c, List.mem_map.mpr ⟨c, List.mem_range.mpr hc, rfl⟩, ?_⟩
+    rw [List.mem_map]
+    refine ⟨Up.rk r c, ?_, rfl⟩
+    show _ ∈ (List.range (c + 1)).filterMap _
+    rw [List.mem_filterMap]
+    exact ⟨r, List.mem_range.mpr (by omega), by simp [hz, hp]⟩
+
+theorem mem_mzWritesL (h : MozSetup n A Lp Up) (a : Array K) (w : Nat × K)
+    (hw : w ∈ mzWritesL a ((List.range n).map (mzInit A Lp Up n))) :
+    ∃ r c, r < n ∧ c ≤ r ∧ Lp.zero? r c = false ∧
+      w = (Lp.rk r c, if r = c then 1 else view A a r c) := by
+  unfold mzWritesL at hw
+  rw [List.mem_append] at hw
+  rcases hw with hw | hw
+  · rw [List.mem_flatMap] at hw
+    obtain ⟨ri, hri, hw⟩ := hw
+    rw [List.mem_map] at hri
+    obtain ⟨i, hi, rfl⟩ := hri
+    have hi' := List.mem_range.mp hi
+    rcases List.mem_cons.mp hw with hw | hw
+    · subst hw
+      exact ⟨i, i, hi', le_refl i, h.diagL i hi', by simp [mzInit]⟩
+    · rw [List.mem_map] at hw
+      obtain ⟨p, hp, rfl⟩ := hw
+      obtain ⟨j, hj1, hj2, hg⟩ := mem_filterMap_range' _ _ _ _ hp
+      have hjn : j < n := by omega
+      cases hz : A.zero? j i <;> simp [hz] at hg
+      subst hg
+      refine ⟨j, i, hjn, by omega, ?_, ?_⟩
+      · exact (pres_true _ _ _).mp (h.closed.supL j i (by omega) hjn ((pres_true _ _ _).mpr hz))
+      · have : j ≠ i := by omega
+        simp [view, hz, this]
+  · rw [List.mem_flatMap] at hw
+    obtain ⟨ri, hri, hw⟩ := hw
+    rw [List.mem_map] at hri hw
+    obtain ⟨i, hi, rfl⟩ := hri
+    obtain ⟨t, ht, rfl⟩ := hw
+    have hi' := List.mem_range.mp hi
+    obtain ⟨j, hj1, hj2, hg⟩ := mem_filterMap_range' _ _ _ _ ht
+    have hjn : j < n := by omega
+    cases hz : A.zero? j i <;> cases hu : Lp.zero? j i <;> simp [hz, hu] at hg
+    subst hg
+    have : j ≠ i := by omega
+    exact ⟨j, i, hjn, by omega, hu, by simp [view, hz, this]⟩
+
+theorem mzWritesL_mem (a : Array K) (r c : Nat) (hr : r < n) (hcr : c ≤ r)
+    (hp : Lp.zero? r c = false) :
+    ∃ w ∈ mzWritesL a ((List.range n).map (mzInit A Lp Up n)), w.1 = Lp.rk r c := by
+  unfold mzWritesL
+  by_cases hd : r = c
+  · subst hd
+    refine ⟨(Lp.rk r r, 1), ?_, rfl⟩
+    rw [List.mem_append]; left
+    rw [List.mem_flatMap]
+    exact ⟨mzInit A Lp Up n r, List.mem_map.mpr ⟨r, List.mem_range.mpr hr, rfl⟩,
+      List.mem_cons_self⟩
+  · have hlt : c < r := by omega
+    cases hz : A.zero? r c
+    · refine ⟨(Lp.rk r c, rd a (A.rk r c)), ?_, rfl⟩
+      rw [List.mem_append]; left
+      rw [List.mem_flatMap]
+      refine ⟨mzInit A Lp Up n c, List.mem_map.mpr ⟨c, List.mem_range.mpr (by omega), rfl⟩, ?_⟩
+      apply List.mem_cons_of_mem
+      rw [List.mem_map]
+      refine ⟨(Lp.rk r c, A.rk r c), ?_, rfl⟩
+      show _ ∈ (rangeFrom (c + 1) n).filterMap _
+      rw [List.mem_filterMap]
+      exact ⟨r, (List.mem_range'_1).mpr (by omega), by simp [hz]⟩
+    · refine ⟨(Lp.rk r c, 0), ?_, rfl⟩
+      rw [List.mem_append]; right
+      rw [List.mem_flatMap]
+      refine ⟨mzInit A Lp Up n c, List.mem_map.mpr ⟨c, List.mem_range.mpr (by omega), rfl⟩, ?_⟩
+      rw [List.mem_map]
+      refine ⟨Lp.rk r c, ?_, rfl⟩
+      show _ ∈ (rangeFrom (c + 1) n).filterMap _
+      rw [List.mem_filterMap]
+      exact ⟨r, (List.mem_range'_1).mpr (by omega), by simp [hz, hp]⟩
+
+/-- state after the initialisation part of `mozartCell`: every present slot is defined -/
+theorem mzInit_spec (h : MozSetup n A Lp Up) (a l0 u0 : Array K) (hLs : l0.size = Lp.nnz)
+    (hUs : u0.size = Up.nnz) :
+    (applyWrites (mzWritesL a ((List.range n).map (mzInit A Lp Up n))) l0).size = Lp.nnz ∧
+    (applyWrites (mzWritesU a ((List.range n).map (mzInit A Lp Up n))) u0).size = Up.nnz ∧
+    (∀ r c, r < n → c < n → Up.zero? r c = false →
+      rd (applyWrites (mzWritesU a ((List.range n).map (mzInit A Lp Up n))) u0) (Up.rk r c)
+        = view A a r c) ∧
+    (∀ r c, r < n → c < n → Lp.zero? r c = false →
+      rd (applyWrites (mzWritesL a ((List.range n).map (mzInit A Lp Up n))) l0) (Lp.rk r c)
+        = if r = c then 1 else view A a r c) := by
+  obtain ⟨l1, _, l3⟩ := applyWrites_spec (mzWritesL a ((List.range n).map (mzInit A Lp Up n))) l0
+  obtain ⟨u1, _, u3⟩ := applyWrites_spec (mzWritesU a ((List.range n).map (mzInit A Lp Up n))) u0
+  refine ⟨by rw [l1, hLs], by rw [u1, hUs], ?_, ?_⟩
+  · intro r c hr hc hp
+    apply u3 _ _ (by rw [hUs]; exact h.gU.rk_lt r c hr hc hp)
+      (mzWritesU_mem a r c hc (h.uppU r c hr hc hp) hp)
+    intro w hw heq
+    obtain ⟨r', c', hc', hrc', hp', rfl⟩ := mem_mzWritesU h a w hw
+    obtain ⟨rfl, rfl⟩ := h.gU.rk_inj r' c' r c (by omega) hc' hr hc hp' hp heq
+    rfl
+  · intro r c hr hc hp
+    apply l3 _ _ (by rw [hLs]; exact h.gL.rk_lt r c hr hc hp)
+      (mzWritesL_mem a r c hr (h.lowL r c hr hc hp) hp)
+    intro w hw heq
+    obtain ⟨r', c', hr', hcr', hp', rfl⟩ := mem_mzWritesL h a w hw
+    obtain ⟨rfl, rfl⟩ := h.gL.rk_inj r' c' r c hr' (by omega) hr hc hp' hp heq
+    rfl
+
+end mzinit
+
+/-! ### Mozart with separate `L`, `U`: main loop -/
+
+def mzUjk (Lp Up : Pattern) (i k : Nat) : List (Nat × Nat) :=
+  (rangeFrom (i + 1) (k + 1)).filterMap fun j =>
+    if Lp.zero? j i then none else some (Up.rk j k, Lp.rk j i)
+
+def mzLjk (Lp : Pattern) (n i k : Nat) : List (Nat × Nat) :=
+  (rangeFrom (k + 1) n).filterMap fun j =>
+    if Lp.zero? j i then none else some (Lp.rk j k, Lp.rk j i)
+
+def mzK (Lp Up : Pattern) (n i k : Nat) : Option MK :=
+  if Up.zero? i k then none
+  else some { uik := Up.rk i k, ujk := mzUjk Lp Up i k, ljk := mzLjk Lp n i k }
+
+def mzRow (Lp Up : Pattern) (n i : Nat) : MRow :=
+  { uii := Up.rk i i, lji := (rangeFrom (i + 1) n).filterMap (miAji Lp i),
+    ks := (rangeFrom (i + 1) n).filterMap (mzK Lp Up n i) }
+
+theorem mozartRows_eq (A Lp Up : Pattern) :
+    mozartRows A Lp Up = (List.range A.n).map (mzRow Lp Up A.n) := rfl
+
+/-- inner `L` loop for a fixed column `k`: rows `lo ≤ j < n`, source column `i ≠ k` of the same
+    array, constant factor `c` -/
+theorem innerSame {n : Nat} {P : Pattern} (g : GoodPattern n P) (M : Array K) (c : K)
+    (i k lo : Nat) (hi : i < n) (hk : k < n) (hik : i ≠ k) (hMs : M.size = P.nnz)
+    (hjk : ∀ j, lo ≤ j → j < n → P.zero? j i = false → P.zero? j k = false) :
+    (((rangeFrom lo n).filterMap fun j =>
+        if P.zero? j i then none else some (P.rk j k, P.rk j i)).foldl
+        (fun M p => wr M p.1 (rd M p.1 - rd M p.2 * c)) M).size = M.size ∧
+    (∀ j, lo ≤ j → j < n → P.zero? j i = false →
+      rd (((rangeFrom lo n).filterMap fun j =>
+        if P.zero? j i then none else some (P.rk j k, P.rk j i)).foldl
+        (fun M p => wr M p.1 (rd M p.1 - rd M p.2 * c)) M) (P.rk j k)
+        = rd M (P.rk j k) - rd M (P.rk j i) * c) ∧
+    (∀ x, (∀ j, lo ≤ j → j < n → P.zero? j i = false → x ≠ P.rk j k) →
+      rd (((rangeFrom lo n).filterMap fun j =>
+        if P.zero? j i then none else some (P.rk j k, P.rk j i)).foldl
+        (fun M p => wr M p.1 (rd M p.1 - rd M p.2 * c)) M) x = rd M x) := by
+  by_cases hlo : lo ≤ n
+  swap
+  · have : rangeFrom lo n = [] := by unfold rangeFrom; rw [show n - lo = 0 by omega]; rfl
+    rw [this]
+    exact ⟨rfl, by intro j h1 h2; omega, fun _ _ => rfl⟩
+  have hsome : ∀ j p, (if P.zero? j i then none else some (P.rk j k, P.rk j i)) = some p →
+      P.zero? j i = false ∧ p = (P.rk j k, P.rk j i) := by
+    intro j p hp
+    cases hz : P.zero? j i <;> simp [hz] at hp
+    exact ⟨rfl, hp.symm⟩
+  obtain ⟨g1, g2, g3⟩ := phase_generic lo (n - lo)
+    (fun j => if P.zero? j i then none else some (P.rk j k, P.rk j i))
+    (fun p => rd M p.1 - rd M p.2 * c)
+    (fun M p => wr M p.1 (rd M p.1 - rd M p.2 * c)) M (fun j => P.rk j k)
+    (fun j => P.zero? j i = false)
+    (fun j p h1 h2 hp => (hsome j p hp).1)
+    (fun j j' h1 h2 h1' h2' hp hp' heq =>
+      (g.rk_inj j k j' k (by omega) hk (by omega) hk (hjk j (by omega) (by omega) hp)
+        (hjk j' (by omega) (by omega) hp') heq).1)
+    (fun j h1 h2 hp => by
+      rw [hMs]; exact g.rk_lt j k (by omega) hk (hjk j (by omega) (by omega) hp))
+    (by
+      intro M' j p h1 h2 hp hMs' hM hown
+      obtain ⟨hpj, rfl⟩ := hsome j p hp
+      show wr M' (P.rk j k) (rd M' (P.rk j k) - rd M' (P.rk j i) * c) = _
+      rw [hown, hM (P.rk j i) (by
+        intro j' h1' h2' hp' heq
+        have := g.rk_inj j i j' k (by omega) hi (by omega) hk hpj
+          (hjk j' (by omega) (by omega) hp') heq
+        omega)])
+  unfold rangeFrom
+  refine ⟨g1, ?_, ?_⟩
+  · intro j h1 h2 hp
+    exact g3 j (P.rk j k, P.rk j i) (by omega) (by omega) (by simp [hp])
+  · intro x hx
+    exact g2 x (fun j h1 h2 hp => hx j (by omega) (by omega) hp)
+
+/-- inner `U` loop for a fixed column `k > i`: rows `i < j ≤ k`, source column `i` of the other
+    (fixed) array `L`, factor `U(i,k)` re-read at every iteration -/
+theorem innerOther {n : Nat} {Lp Up : Pattern} (gU : GoodPattern n Up) (L U : Array K)
+    (i k : Nat) (hik : i < k) (hk : k < n) (hUs : U.size = Up.nnz)
+    (hpk : Up.zero? i k = false)
+    (hjk : ∀ j, i < j → j ≤ k → Lp.zero? j i = false → Up.zero? j k = false) :
+    ((mzUjk Lp Up i k).foldl
+        (fun U p => wr U p.1 (rd U p.1 - rd L p.2 * rd U (Up.rk i k))) U).size = U.size ∧
+    (∀ j, i < j → j ≤ k → Lp.zero? j i = false →
+      rd ((mzUjk Lp Up i k).foldl
+        (fun U p => wr U p.1 (rd U p.1 - rd L p.2 * rd U (Up.rk i k))) U) (Up.rk j k)
+        = rd U (Up.rk j k) - rd L (Lp.rk j i) * rd U (Up.rk i k)) ∧
+    (∀ x, (∀ j, i < j → j ≤ k → Lp.zero? j i = false → x ≠ Up.rk j k) →
+      rd ((mzUjk Lp Up i k).foldl
+        (fun U p => wr U p.1 (rd U p.1 - rd L p.2 * rd U (Up.rk i k))) U) x = rd U x) := by
+  have hsome : ∀ j p, (if Lp.zero? j i then none else some (Up.rk j k, Lp.rk j i)) = some p →
+      Lp.zero? j i = false ∧ p = (Up.rk j k, Lp.rk j i) := by
+    intro j p hp
+    cases hz : Lp.zero? j i <;> simp [hz] at hp
+    exact ⟨rfl, hp.symm⟩
+  have hlen : i + 1 + (k + 1 - (i + 1)) = k + 1 := by omega
+  obtain ⟨g1, g2, g3⟩ := phase_generic (i + 1) (k + 1 - (i + 1))
+    (fun j => if Lp.zero? j i then none else some (Up.rk j k, Lp.rk j i))
+    (fun p => rd U p.1 - rd L p.2 * rd U (Up.rk i k))
+    (fun U p => wr U p.1 (rd U p.1 - rd L p.2 * rd U (Up.rk i k))) U (fun j => Up.rk j k)
+    (fun j => Lp.zero? j i = false)
+    (fun j p h1 h2 hp => (hsome j p hp).1)
+    (fun j j' h1 h2 h1' h2' hp hp' heq =>
+      (gU.rk_inj j k j' k (by omega) hk (by omega) hk (hjk j (by omega) (by omega) hp)
+        (hjk j' (by omega) (by omega) hp') heq).1)
+    (fun j h1 h2 hp => by
+      rw [hUs]; exact gU.rk_lt j k (by omega) hk (hjk j (by omega) (by omega) hp))
+    (by
+      intro U' j p h1 h2 hp hUs' hM hown
+      obtain ⟨hpj, rfl⟩ := hsome j p hp
+      show wr U' (Up.rk j k) (rd U' (Up.rk j k) - rd L (Lp.rk j i) * rd U' (Up.rk i k)) = _
+      rw [hown, hM (Up.rk i k) (by
+        intro j' h1' h2' hp' heq
+        have := gU.rk_inj i k j' k (by omega) hk (by omega) hk hpk
+          (hjk j' (by omega) (by omega) hp') heq
+        omega)])
+  unfold mzUjk rangeFrom
+  refine ⟨g1, ?_, ?_⟩
+  · intro j h1 h2 hp
+    exact g3 j (Up.rk j k, Lp.rk j i) (by omega) (by omega) (by simp [hp])
+  · intro x hx
+    exact g2 x (fun j h1 h2 hp => hx j (by omega) (by omega) hp)
+
+/-- read a location of the pair state: `(true, x)` is `U[x]`, `(false, x)` is `L[x]` -/
+def getLU (S : Array K × Array K) (x : Bool × Nat) : K := if x.1 then rd S.2 x.2 else rd S.1 x.2
+
+section mzloop
+variable {n : Nat} {A Lp Up : Pattern}
+
+theorem moz_fillU (h : MozSetup n A Lp Up) (i j k : Nat) (hij : i < j) (hjk : j ≤ k) (hk : k < n)
+    (h1 : Lp.zero? j i = false) (h2 : Up.zero? i k = false) : Up.zero? j k = false :=
+  (pres_true _ _ _).mp (h.closed.fillU j i k hij hjk hk ((pres_true _ _ _).mpr h1)
+    ((pres_true _ _ _).mpr h2))
+
+theorem moz_fillL (h : MozSetup n A Lp Up) (i j k : Nat) (hik : i < k) (hkj : k < j) (hj : j < n)
+    (h1 : Lp.zero? j i = false) (h2 : Up.zero? i k = false) : Lp.zero? j k = false :=
+  (pres_true _ _ _).mp (h.closed.fillL k i j hik hkj hj ((pres_true _ _ _).mpr h1)
+    ((pres_true _ _ _).mpr h2))
+
+/-- phase 2 of stage `i` on the pair `(L, U)` -/
+theorem mzPhase2 (h : MozSetup n A Lp Up) (L1 U0 : Array K) (i : Nat) (hi : i < n)
+    (hLs : L1.size = Lp.nnz) (hUs : U0.size = Up.nnz) :
+    (((rangeFrom (i + 1) n).filterMap (mzK Lp Up n i)).foldl mzStepK (L1, U0)).1.size = Lp.nnz ∧
+    (((rangeFrom (i + 1) n).filterMap (mzK Lp Up n i)).foldl mzStepK (L1, U0)).2.size = Up.nnz ∧
+    (∀ j k, i < j → j ≤ k → k < n → Lp.zero? j i = false → Up.zero? i k = false →
+      rd (((rangeFrom (i + 1) n).filterMap (mzK Lp Up n i)).foldl mzStepK (L1, U0)).2 (Up.rk j k)
+        = rd U0 (Up.rk j k) - rd L1 (Lp.rk j i) * rd U0 (Up.rk i k)) ∧
+    (∀ j k, i < k → k < j → j < n → Lp.zero? j i = false → Up.zero? i k = false →
+      rd (((rangeFrom (i + 1) n).filterMap (mzK Lp Up n i)).foldl mzStepK (L1, U0)).1 (Lp.rk j k)
+        = rd L1 (Lp.rk j k) - rd L1 (Lp.rk j i) * rd U0 (Up.rk i k)) ∧
+    (∀ r c, r < n → c < n → Up.zero? r c = false →
+      ¬ (i < r ∧ r ≤ c ∧ Lp.zero? r i = false ∧ Up.zero? i c = false) →
+      rd (((rangeFrom (i + 1) n).filterMap (mzK Lp Up n i)).foldl mzStepK (L1, U0)).2 (Up.rk r c)
+        = rd U0 (Up.rk r c)) ∧
+    (∀ r c, r < n → c < n → Lp.zero? r c = false →
+      ¬ (i < c ∧ c < r ∧ Lp.zero? r i = false ∧ Up.zero? i c = false) →
+      rd (((rangeFrom (i + 1) n).filterMap (mzK Lp Up n i)).foldl mzStepK (L1, U0)).1 (Lp.rk r c)
+        = rd L1 (Lp.rk r c)) := by
+  have hsome : ∀ k e, mzK Lp Up n i k = some e → Up.zero? i k = false ∧
+      e = { uik := Up.rk i k, ujk := mzUjk Lp Up i k, ljk := mzLjk Lp n i k } := by
+    intro k e he
+    unfold mzK at he
+    cases hz : Up.zero? i k <;> simp [hz] at he
+    exact ⟨rfl, he.symm⟩
+  -- presence of the block slots
+  have hQU : ∀ k j, i < j → j ≤ k → k < n → Lp.zero? j i = false → Up.zero? i k = false →
+      Up.zero? j k = false := fun k j a b c d e => moz_fillU h i j k a b c d e
+  have hQL : ∀ k j, i < k → k < j → j < n → Lp.zero? j i = false → Up.zero? i k = false →
+      Lp.zero? j k = false := fun k j a b c d e => moz_fillL h i j k a b c d e
+  obtain ⟨g1, g2, g3⟩ := phase_blocks_gen (getLU (K := K))
+    (fun S => S.1.size = Lp.nnz ∧ S.2.size = Up.nnz) (i + 1) (n - (i + 1)) (mzK Lp Up n i)
+    mzStepK (L1, U0) ⟨hLs, hUs⟩
+    (fun k j => if j ≤ k then (true, Up.rk j k) else (false, Lp.rk j k))
+    (fun k j => i < j ∧ j < n ∧ Lp.zero? j i = false ∧ Up.zero? i k = false)
+    (fun k j => (if j ≤ k then rd U0 (Up.rk j k) else rd L1 (Lp.rk j k))
+      - rd L1 (Lp.rk j i) * rd U0 (Up.rk i k))
+    (by
+      intro k k' j j' h1 h2 h1' h2' hq hq' heq
+      by_cases c1 : j ≤ k <;> by_cases c2 : j' ≤ k' <;>
+        simp only [c1, c2, if_true, if_false, Prod.mk.injEq, true_and, Bool.true_eq_false,
+          Bool.false_eq_true, false_and] at heq
+      · exact (h.gU.rk_inj j k j' k' (by omega) (by omega) (by omega) (by omega)
+          (hQU k j hq.1 c1 (by omega) hq.2.2.1 hq.2.2.2)
+          (hQU k' j' hq'.1 c2 (by omega) hq'.2.2.1 hq'.2.2.2) heq).2
+      · exact (h.gL.rk_inj j k j' k' (by omega) (by omega) (by omega) (by omega)
+          (hQL k j (by omega) (by omega) hq.2.1 hq.2.2.1 hq.2.2.2)
+          (hQL k' j' (by omega) (by omega) hq'.2.1 hq'.2.2.1 hq'.2.2.2) heq).2)
+    (by
+      intro S k e h1 h2 he hok hM hown
+      obtain ⟨L, U⟩ := S
+      obtain ⟨hpk, rfl⟩ := hsome k e he
+      have hkn : k < n := by omega
+      have hik : i < k := by omega
+      -- row i of U and column i of L are not in any block
+      have haU : rd U (Up.rk i k) = rd U0 (Up.rk i k) := by
+        have := hM (true, Up.rk i k) (by
+          intro k' j' h1' h2' hq heq
+          by_cases c : j' ≤ k' <;>
+            simp only [c, if_true, if_false, Prod.mk.injEq, true_and, Bool.true_eq_false,
+              false_and] at heq
+          have := h.gU.rk_inj i k j' k' hi hkn (by omega) (by omega) hpk
+            (hQU k' j' hq.1 c (by omega) hq.2.2.1 hq.2.2.2) heq
+          omega)
+        simpa [getLU] using this
+      have hLcol : ∀ j, i < j → j < n → Lp.zero? j i = false →
+          rd L (Lp.rk j i) = rd L1 (Lp.rk j i) := by
+        intro j hj1 hj2 hpj
+        have := hM (false, Lp.rk j i) (by
+          intro k' j' h1' h2' hq heq
+          by_cases c : j' ≤ k' <;>
+            simp only [c, if_true, if_false, Prod.mk.injEq, true_and, Bool.false_eq_true,
+              false_and] at heq
+          have := h.gL.rk_inj j i j' k' hj2 hi (by omega) (by omega) hpj
+            (hQL k' j' (by omega) (by omega) hq.2.1 hq.2.2.1 hq.2.2.2) heq
+          omega)
+        simpa [getLU] using this
+      obtain ⟨a1, a2, a3⟩ := innerOther (Lp := Lp) h.gU L U i k hik hkn hok.2 hpk
+        (fun j c1 c2 c3 => hQU k j c1 c2 hkn c3 hpk)
+      generalize hU' : (mzUjk Lp Up i k).foldl
+        (fun U p => wr U p.1 (rd U p.1 - rd L p.2 * rd U (Up.rk i k))) U = U' at a1 a2 a3
+      have hc : rd U' (Up.rk i k) = rd U (Up.rk i k) := by
+        apply a3
+        intro j c1 c2 c3 heq
+        have := h.gU.rk_inj i k j k hi hkn (by omega) hkn hpk (hQU k j c1 c2 hkn c3 hpk) heq
+        omega
+      obtain ⟨b1, b2, b3⟩ := innerSame h.gL L (rd U' (Up.rk i k)) i k (k + 1) hi hkn (by omega)
+        hok.1 (fun j c1 c2 c3 => hQL k j hik (by omega) c2 c3 hpk)
+      have hstepEq : mzStepK (L, U) { uik := Up.rk i k, ujk := mzUjk Lp Up i k, ljk := mzLjk Lp n i k }
+          = (((rangeFrom (k + 1) n).filterMap fun j =>
+              if Lp.zero? j i then none else some (Lp.rk j k, Lp.rk j i)).foldl
+              (fun M p => wr M p.1 (rd M p.1 - rd M p.2 * rd U' (Up.rk i k))) L, U') := by
+        simp only [mzStepK, mzLjk, hU']
+      rw [hstepEq]
+      refine ⟨⟨by rw [b1]; exact hok.1, by rw [a1]; exact hok.2⟩, ?_, ?_⟩
+      · intro j hq
+        have ownj := hown j hq
+        by_cases c : j ≤ k
+        · simp only [c, if_true, getLU] at ownj ⊢
+          rw [a2 j hq.1 c hq.2.2.1, ownj, haU, hLcol j hq.1 hq.2.1 hq.2.2.1]
+        · simp only [c, if_false, getLU, Bool.false_eq_true] at ownj ⊢
+          rw [b2 j (by omega) hq.2.1 hq.2.2.1, ownj, hc, haU, hLcol j hq.1 hq.2.1 hq.2.2.1]
+      · intro x hx
+        obtain ⟨b, y⟩ := x
+        cases b
+        · simp only [getLU, Bool.false_eq_true, if_false]
+          apply b3
+          intro j c1 c2 c3 heq
+          have := hx j ⟨by omega, c2, c3, hpk⟩
+          have c : ¬ j ≤ k := by omega
+          simp only [c, if_false] at this
+          exact this (by rw [heq])
+        · simp only [getLU, if_true]
+          apply a3
+          intro j c1 c2 c3 heq
+          have := hx j ⟨c1, by omega, c3, hpk⟩
+          simp only [c2, if_true] at this
+          exact this (by rw [heq]))
+    (n - (i + 1)) (le_refl _)
+  unfold rangeFrom
+  generalize ((List.range' (i + 1) (n - (i + 1))).filterMap (mzK Lp Up n i)).foldl mzStepK (L1, U0)
+    = S at g1 g2 g3
+  have hK : ∀ k, Up.zero? i k = false → mzK Lp Up n i k
+      = some { uik := Up.rk i k, ujk := mzUjk Lp Up i k, ljk := mzLjk Lp n i k } := by
+    intro k hq; simp [mzK, hq]
+  refine ⟨g1.1, g1.2, ?_, ?_, ?_, ?_⟩
+  · intro j k c1 c2 c3 c4 c5
+    have := g3 k _ j (by omega) (by omega) (hK k c5) ⟨c1, by omega, c4, c5⟩
+    simpa [getLU, c2] using this
+  · intro j k c1 c2 c3 c4 c5
+    have := g3 k _ j (by omega) (by omega) (hK k c5) ⟨by omega, c3, c4, c5⟩
+    have c : ¬ j ≤ k := by omega
+    simpa [getLU, c] using this
+  · intro r c hr hc hp hnot
+    have := g2 (true, Up.rk r c) (by
+      intro k j c1 c2 hq heq
+      by_cases cc : j ≤ k <;>
+        simp only [cc, if_true, if_false, Prod.mk.injEq, true_and, Bool.true_eq_false,
+          false_and] at heq
+      have := h.gU.rk_inj r c j k hr hc (by omega) (by omega) hp
+        (hQU k j hq.1 cc (by omega) hq.2.2.1 hq.2.2.2) heq
+      obtain ⟨rfl, rfl⟩ := this
+      exact hnot ⟨hq.1, cc, hq.2.2.1, hq.2.2.2⟩)
+    simpa [getLU] using this
+  · intro r c hr hc hp hnot
+    have := g2 (false, Lp.rk r c) (by
+      intro k j c1 c2 hq heq
+      by_cases cc : j ≤ k <;>
+        simp only [cc, if_true, if_false, Prod.mk.injEq, true_and, Bool.false_eq_true,
+          false_and] at heq
+      have := h.gL.rk_inj r c j k hr hc (by omega) (by omega) hp
+        (hQL k j (by omega) (by omega) hq.2.1 hq.2.2.1 hq.2.2.2) heq
+      obtain ⟨rfl, rfl⟩ := this
+      exact hnot ⟨by omega, by omega, hq.2.2.1, hq.2.2.2⟩)
+    simpa [getLU] using this
+
+end mzloop
+
+/-- right-looking invariant for the pair `(L, U)` after `i` stages -/
+structure MozInvS (n : Nat) (Lp Up : Pattern) (Am : Nat → Nat → K) (d : LU K) (i : Nat)
+    (L U : Array K) : Prop where
+  U_fin : ∀ r c, r < n → c < n → Up.zero? r c = false → r < i → rd U (Up.rk r c) = d.U r c
+  U_rest : ∀ r c, r < n → c < n → Up.zero? r c = false → i ≤ r →
+    rd U (Up.rk r c) = schur Am d i r c
+  L_fin : ∀ r c, r < n → c < n → Lp.zero? r c = false → c < r → c < i →
+    rd L (Lp.rk r c) = d.L r c
+  L_rest : ∀ r c, r < n → c < n → Lp.zero? r c = false → c < r → i ≤ c →
+    rd L (Lp.rk r c) = schur Am d i r c
+  L_diag : ∀ r, r < n → rd L (Lp.rk r r) = 1
+
+section mzrows
+variable {n : Nat} {A Lp Up : Pattern}
+
+theorem moz_dense_off (h : MozSetup n A Lp Up) (Am : Nat → Nat → K)
+    (hA : ∀ r c, pres A r c = false → Am r c = 0) :
+    (∀ r c, r < n → c < n → Up.zero? r c = true → r ≤ c → (DenseLU.lu Am n).U r c = 0) ∧
+    (∀ r c, r < n → c < n → Lp.zero? r c = true → c < r → (DenseLU.lu Am n).L r c = 0) := by
+  have hrel := SparseLU.rel_slu n Am (pres A) (pres Lp) (pres Up) h.closed hA DenseLU.init n
+    (le_refl n)
+  exact ⟨fun r c hr hc hp hrc => hrel.U_off r c hr hrc hc ((pres_false _ _ _).mpr hp),
+    fun r c hr hc hp hcr => hrel.L_off r c hc hcr hr ((pres_false _ _ _).mpr hp)⟩
+
+theorem mzStep_inv (h : MozSetup n A Lp Up) (Am : Nat → Nat → K)
+    (hA : ∀ r c, pres A r c = false → Am r c = 0) (L U : Array K) (i : Nat) (hi : i < n)
+    (hLs : L.size = Lp.nnz) (hUs : U.size = Up.nnz)
+    (hinv : MozInvS n Lp Up Am (DenseLU.lu Am n) i L U) :
+    (mzStep (L, U) (mzRow Lp Up n i)).1.size = Lp.nnz ∧
+    (mzStep (L, U) (mzRow Lp Up n i)).2.size = Up.nnz ∧
+    MozInvS n Lp Up Am (DenseLU.lu Am n) (i + 1) (mzStep (L, U) (mzRow Lp Up n i)).1
+      (mzStep (L, U) (mzRow Lp Up n i)).2 := by
+  obtain ⟨offU, offL⟩ := moz_dense_off h Am hA
+  simp only [mzStep, mzRow]
+  obtain ⟨p1, p2, p3⟩ := miPhase1 h.gL L (1 / rd U (Up.rk i i)) i hi hLs
+  generalize ((rangeFrom (i + 1) n).filterMap (miAji Lp i)).foldl
+    (fun M' t => wr M' t (rd M' t * (1 / rd U (Up.rk i i)))) L = L1 at p1 p2 p3
+  obtain ⟨q1, q2, q3, q4, q5, q6⟩ := mzPhase2 h L1 U i hi p1 hUs
+  generalize ((rangeFrom (i + 1) n).filterMap (mzK Lp Up n i)).foldl mzStepK (L1, U) = S
+    at q1 q2 q3 q4 q5 q6
+  have hUii : Up.zero? i i = false := (pres_true _ _ _).mp (h.closed.diagU i hi)
+  have hLi : ∀ r, i < r → r < n → Lp.zero? r i = false →
+      rd L1 (Lp.rk r i) = (DenseLU.lu Am n).L r i := by
+    intro r hir hr hp
+    rw [p2 r hir hr hp, hinv.L_rest r i hr hi hp hir (le_refl i),
+      hinv.U_rest i i hi hi hUii (le_refl i), lu_L_schur Am n i r hi hir]
+  have hUi : ∀ c, c < n → Up.zero? i c = false → rd U (Up.rk i c) = (DenseLU.lu Am n).U i c := by
+    intro c hc hp
+    rw [hinv.U_rest i c hi hc hp (le_refl i), lu_U_schur Am n i c hi (h.uppU i c hi hc hp)]
+  have hzero : ∀ r c, i < r → r < n → i < c → c < n →
+      ¬ (Lp.zero? r i = false ∧ Up.zero? i c = false) →
+      (DenseLU.lu Am n).L r i * (DenseLU.lu Am n).U i c = 0 := by
+    intro r c hir hr hic hc ht
+    cases h1 : Lp.zero? r i
+    · cases h2 : Up.zero? i c
+      · exact absurd ⟨h1, h2⟩ ht
+      · rw [offU i c hi hc h2 (by omega)]; ring
+    · rw [offL r i hr hi h1 hir]; ring
+  refine ⟨q1, q2, ⟨?_, ?_, ?_, ?_, ?_⟩⟩
+  · intro r c hr hc hp hri
+    rw [q5 r c hr hc hp (by omega)]
+    by_cases hr' : r = i
+    · subst hr'; exact hUi c hc hp
+    · exact hinv.U_fin r c hr hc hp (by omega)
+  · intro r c hr hc hp hir
+    have hrc := h.uppU r c hr hc hp
+    rw [schur_succ]
+    by_cases ht : Lp.zero? r i = false ∧ Up.zero? i c = false
+    · rw [q3 r c (by omega) hrc hc ht.1 ht.2, hLi r (by omega) hr ht.1, hUi c hc ht.2,
+        hinv.U_rest r c hr hc hp (by omega)]
+    · rw [q5 r c hr hc hp (fun hh => ht ⟨hh.2.2.1, hh.2.2.2⟩),
+        hinv.U_rest r c hr hc hp (by omega),
+        hzero r c (by omega) hr (by omega) hc ht]
+      ring
+  · intro r c hr hc hp hcr hci
+    rw [q6 r c hr hc hp (by omega)]
+    by_cases hc' : c = i
+    · subst hc'; exact hLi r hcr hr hp
+    · rw [p3 r c hr hc hp (by omega)]
+      exact hinv.L_fin r c hr hc hp hcr (by omega)
+  · intro r c hr hc hp hcr hic
+    rw [schur_succ]
+    by_cases ht : Lp.zero? r i = false ∧ Up.zero? i c = false
+    · rw [q4 r c (by omega) hcr hr ht.1 ht.2, hLi r (by omega) hr ht.1, hUi c hc ht.2,
+        p3 r c hr hc hp (by omega), hinv.L_rest r c hr hc hp hcr (by omega)]
+    · rw [q6 r c hr hc hp (fun hh => ht ⟨hh.2.2.1, hh.2.2.2⟩), p3 r c hr hc hp (by omega),
+        hinv.L_rest r c hr hc hp hcr (by omega),
+        hzero r c (by omega) hr (by omega) hc ht]
+      ring
+  · intro r hr
+    rw [q6 r r hr hr (h.diagL r hr) (by omega), p3 r r hr hr (h.diagL r hr) (by omega)]
+    exact hinv.L_diag r hr
+
+theorem mzRows_inv (h : MozSetup n A Lp Up) (Am : Nat → Nat → K)
+    (hA : ∀ r c, pres A r c = false → Am r c = 0) (L0 U0 : Array K)
+    (hLs : L0.size = Lp.nnz) (hUs : U0.size = Up.nnz)
+    (h0 : MozInvS n Lp Up Am (DenseLU.lu Am n) 0 L0 U0) (m : Nat) (hm : m ≤ n) :
+    (((List.range m).map (mzRow Lp Up n)).foldl mzStep (L0, U0)).1.size = Lp.nnz ∧
+    (((List.range m).map (mzRow Lp Up n)).foldl mzStep (L0, U0)).2.size = Up.nnz ∧
+    MozInvS n Lp Up Am (DenseLU.lu Am n) m
+      (((List.range m).map (mzRow Lp Up n)).foldl mzStep (L0, U0)).1
+      (((List.range m).map (mzRow Lp Up n)).foldl mzStep (L0, U0)).2 := by
+  induction m with
+  | zero => exact ⟨hLs, hUs, h0⟩
+  | succ m ih =>
+    obtain ⟨g1, g2, g3⟩ := ih (by omega)
+    rw [List.range_succ, List.map_append, List.foldl_append]
+    simp only [List.map_cons, List.map_nil, List.foldl_cons, List.foldl_nil]
+    generalize ((List.range m).map (mzRow Lp Up n)).foldl mzStep (L0, U0) = S at g1 g2 g3
+    obtain ⟨L, U⟩ := S
+    exact mzStep_inv h Am hA L U m (by omega) g1 g2 g3
+
+/-- C03 core for `mozartCell`: same statement as for `doolittleCell` -/
+theorem mozartCell_view (h : MozSetup n A Lp Up) (hn : A.n = n) (a l0 u0 : Array K)
+    (hLs : l0.size = Lp.nnz) (hUs : u0.size = Up.nnz) (r c : Nat) (hr : r < n) (hc : c < n) :
+    view Lp (mozartCell (mozartInit A Lp Up) (mozartRows A Lp Up) a (l0, u0)).1 r c
+        = (DenseLU.lu (view A a) n).L r c ∧
+    view Up (mozartCell (mozartInit A Lp Up) (mozartRows A Lp Up) a (l0, u0)).2 r c
+        = (DenseLU.lu (view A a) n).U r c := by
+  rw [mozartCell_eq, mozartInit_eq, mozartRows_eq, hn]
+  have hA : ∀ r c, pres A r c = false → view A a r c = 0 :=
+    fun r c hp => view_absent _ _ _ _ ((pres_false _ _ _).mp hp)
+  obtain ⟨i1, i2, i3, i4⟩ := mzInit_spec h a l0 u0 hLs hUs
+  generalize applyWrites (mzWritesL a ((List.range n).map (mzInit A Lp Up n))) l0 = L0
+    at i1 i3 i4
+  generalize applyWrites (mzWritesU a ((List.range n).map (mzInit A Lp Up n))) u0 = U0
+    at i2 i3 i4
+  have h0 : MozInvS n Lp Up (view A a) (DenseLU.lu (view A a) n) 0 L0 U0 := by
+    refine ⟨by intros; omega, ?_, by intros; omega, ?_, ?_⟩
+    · intro r c hr hc hp _
+      rw [schur_zero]; exact i3 r c hr hc hp
+    · intro r c hr hc hp hcr _
+      rw [schur_zero, i4 r c hr hc hp, if_neg (by omega)]
+    · intro r hr
+      rw [i4 r r hr hr (h.diagL r hr), if_pos rfl]
+  obtain ⟨_, _, hinv⟩ := mzRows_inv h (view A a) hA L0 U0 i1 i2 h0 n (le_refl n)
+  obtain ⟨offU, offL⟩ := moz_dense_off h (view A a) hA
+  have hsh := DenseLU.lu_shape (view A a) n
+  generalize ((List.range n).map (mzRow Lp Up n)).foldl mzStep (L0, U0) = S at hinv
+  constructor
+  · cases hp : Lp.zero? r c
+    · rw [view_present _ _ _ _ hp]
+      have hcr := h.lowL r c hr hc hp
+      by_cases hd : c = r
+      · subst hd; rw [hinv.L_diag c hc, hsh.L_diag c hc]
+      · exact hinv.L_fin r c hr hc hp (by omega) hc
+    · rw [view_absent _ _ _ _ hp]
+      by_cases hcr : c < r
+      · exact (offL r c hr hc hp hcr).symm
+      · have : r ≠ c := by intro h'; subst h'; rw [h.diagL r hr] at hp; cases hp
+        exact (hsh.L_up r c (by omega)).symm
+  · cases hp : Up.zero? r c
+    · rw [view_present _ _ _ _ hp]
+      exact hinv.U_fin r c hr hc hp hr
+    · rw [view_absent _ _ _ _ hp]
+      by_cases hrc : r ≤ c
+      · exact (offU r c hr hc hp hrc).symm
+      · exact (hsh.U_low r c (by omega)).symm
+
+end mzrows
 
 end Micm
